@@ -22,7 +22,7 @@ ASSUMPTIONS = ["orphan payloads under a DAYS argument and the exit status are no
                "unpadded-but-strptime-parseable dates, no CRLF)"]
 
 DELTAS = ["-1", "0", "+1", "rand_old", "rand_new", "far_past", "future", "malformed", "missing",
-          "dup_old_first", "dup_new_first"]
+          "dup_old_first", "dup_new_first", "dup_bad_first_old", "dup_bad_first_new"]
 MALFORMED = ["garbage", "", "2020-13-45T00:00:00", "2021-02-30T10:00:00", "2020-01-01T00:00:00Z",
              "2020-01-01 00:00:00", "20200101T000000", "2020-01-01T25:00:00", "0000-00-00T00:00:00",
              "2020-01-01T00:00"]
@@ -71,6 +71,12 @@ def strategy_(draw, tier):
             expect_old = False
         elif dc == "missing":
             date = None
+            expect_old = False
+        elif dc.startswith("dup_bad_first"):
+            # the FIRST DeletionDate line decides: it is malformed, so the entry is kept
+            # whatever a later line says
+            bad = draw(st.sampled_from([m for m in MALFORMED if m]))
+            date = (bad, gen.date_str(thr - 500 if dc.endswith("old") else thr + 500))
             expect_old = False
         else:
             old, new = gen.date_str(thr - 5), gen.date_str(thr + 5)
